@@ -142,6 +142,11 @@ def main():
                 R._tls.attempt = None
             futs.append((cid, call, f))
             cid += 1
+            if call.get("wait"):
+                try:
+                    f.result(timeout=scen.get("timeout", 60))     # resubmissions after this point fall after completion
+                except BaseException:  # noqa
+                    pass
             if call.get("pause"):
                 time.sleep(call["pause"] / 1000.0)
         rec = {"results": {}, "dir_before_shutdown": None}
